@@ -163,4 +163,29 @@ RepCons(x) == {<<"bin", o, x, A2>> : o \in RepBin} \cup {<<"bin", o, A1, x>> : o
 Mid == UNION {{<<"bin", o, i, <<"id", "p">> >> : o \in RepBin} \cup {<<"bin", o, <<"id", "p">>, i>> : o \in RepBin}
               \cup {<<"pre", "T_MINUS", i>>, <<"idx", <<"id", "p">>, i>>, <<"ite", <<"id", "p">>, i, <<"id", "q">> >>} : i \in RepInner}
 Depth3 == UNION {RepCons(m) : m \in Mid}
+
+(* ---------------------------------------------------------------- a typed universe (C03): the same constructors, with
+   operand atoms of the types the operators need, so that most trees are accepted by the type checker in the scaffold
+     int i, j, k;  bool b1;  int arr[3];  int mat[2][2];  struct { int f; int g[2]; } s, sa[2];  int fn(int, int);  *)
+I1 == <<"id", "i">>
+I2 == <<"id", "j">>
+I3 == <<"id", "k">>
+LValues == {I1, <<"idx", <<"id", "arr">>, I2>>, <<"dot", <<"id", "s">>, "f">>, <<"idx", <<"idx", <<"id", "mat">>, I1>>, I2>>,
+            <<"idx", <<"dot", <<"id", "s">>, "g">>, I1>>, <<"dot", <<"idx", <<"id", "sa">>, I1>>, "f">>}
+ConsT(x) ==
+    {<<"bin", o, x, I2>> : o \in BinToks} \cup {<<"bin", o, I1, x>> : o \in BinToks}
+    \cup {<<"pre", o, x>> : o \in PreToks} \cup {<<"post", o, x>> : o \in PostToks \ {"RATE"}}
+    \cup {<<"idx", <<"id", "arr">>, x>>, <<"idx", <<"idx", <<"id", "mat">>, x>>, I2>>, <<"idx", <<"idx", <<"id", "mat">>, I1>>, x>>,
+          <<"call", <<"id", "fn">>, <<x, I2>> >>, <<"call", <<"id", "fn">>, <<I1, x>> >>}
+    \cup {<<"bf1", "T_ABS", x>>, <<"bf2", "T_FMAX", x, I2>>, <<"bf2", "T_FMAX", I1, x>>}
+    \cup {<<"ite", x, I2, I3>>, <<"ite", I1, x, I3>>, <<"ite", I1, I2, x>>}
+    \cup {<<"asg", o, lv, x>> : o \in AsgToks, lv \in {I1, <<"idx", <<"id", "arr">>, I2>>}} \cup {<<"asg", o, x, I2>> : o \in AsgToks}
+    \cup {<<"quant", q, "q", x>> : q \in QuantToks}
+DblAtoms == {<<"dbl", "1.5">>, <<"dbl", "0.1">>, <<"dbl", "3.0">>, <<"dbl", "0.30000000000000004">>, <<"dbl", "1e-09">>, <<"dbl", "1.7976931348623157e308">>,
+             <<"dbl", "4.9e-324">>, <<"dbl", "123456789.123456789">>, <<"dbl", "5e22">>}
+TAtoms == LValues \cup DblAtoms \cup {<<"nat", 7>>, <<"nat", 0>>, <<"true">>, <<"false">>, <<"id", "b1">>, <<"id", "d">>}
+           \cup {<<"bin", "T_PLUS", <<"id", "d">>, x>> : x \in DblAtoms} \cup {<<"pre", "T_MINUS", x>> : x \in DblAtoms}
+TInner == UNION {ConsT(a) : a \in {I1, <<"idx", <<"id", "arr">>, I3>>, <<"dot", <<"id", "s">>, "f">>}}
+TDepth1 == TAtoms \cup TInner
+TDepth2 == UNION {ConsT(m) : m \in {y \in TInner : y[1] # "asg" \/ y[2] \in {"T_ASSIGNMENT", "T_ASSPLUS"}}}
 =============================================================================
